@@ -49,11 +49,11 @@ func algForKey(keyID string) string {
 	case strings.HasPrefix(keyID, "ec521"):
 		return "ES512"
 	// unsupported keys: the closest algorithm, so that a genuinely valid signature exists for it
-	case strings.HasPrefix(keyID, "rsa1024"), strings.HasPrefix(keyID, "rsa2056"), strings.HasPrefix(keyID, "rsa2560"):
+	case strings.HasPrefix(keyID, "rsa1024"), strings.HasPrefix(keyID, "rsa2056"), strings.HasPrefix(keyID, "rsa2560"), strings.HasPrefix(keyID, "rsa2000"), strings.HasPrefix(keyID, "rsa2040"):
 		return "PS256"
-	case strings.HasPrefix(keyID, "rsa3200"):
+	case strings.HasPrefix(keyID, "rsa3200"), strings.HasPrefix(keyID, "rsa3064"):
 		return "PS384"
-	case strings.HasPrefix(keyID, "rsa5120"):
+	case strings.HasPrefix(keyID, "rsa5120"), strings.HasPrefix(keyID, "rsa4088"), strings.HasPrefix(keyID, "rsa4104"):
 		return "PS512"
 	case strings.HasPrefix(keyID, "ec224"):
 		return "ES256"
